@@ -1,8 +1,8 @@
 \* exhaustive check of the repaired design (history hidden by VIEW): every interleaving of <= MaxMut
 \* environment mutations with deliveries in any order and <= MaxDup repeated deliveries
 CONSTANTS NodeNames = {"n1", "n2"}  ClaimNames = {"c1"}  PodKeys = {"p1", "p2"}  Pids = {"i1", "i2"}  Pools = {"a"}
-          PortNames = {"80", "81"}
-          Defects = {}  MaxMut = 5  MaxDup = 1  MaxLen = 1000  WithTerm = FALSE  WithRestart = FALSE  PodShapes = {"std", "alt"}  MaxPend = 100
+          PortNames = {"80", "81", "82"}
+          Defects = {}  MaxMut = 5  MaxDup = 1  MaxLen = 1000  WithTerm = FALSE  WithRestart = FALSE  PodShapes = {"std", "alt"}  Start = "empty"  MaxFail = 1  MaxPend = 100
 SPECIFICATION Spec
 VIEW view
 INVARIANTS Inv_C11_NoPanic Inv_EnvUnambiguous Inv_C11_nodes Inv_C11_requests Inv_C11_daemonRequests Inv_C11_hostPorts
